@@ -78,6 +78,17 @@ Theorem C18_request_line : forall base p h, sane_prefix base -> sane_path p -> U
 Proof. exact c18_request_line. Qed.
 Print Assumptions C18_request_line.
 
+(* The same on the REGENERATED value flow of _handle_request (Gen/UrlGen.v: every step between environ["PATH_INFO"]
+   and the `path` argument of the handlers, translated from the source on each run): the emitted href, with or
+   without a query, is handed to the handler as `p`.  A further decoding step in that flow breaks the translation. *)
+Theorem C18_request_line_regenerated : forall base p h query, sane_prefix base -> sane_path p ->
+  UrlGen.make_href base p = Some h ->
+  UrlGen.request_path true base (pathinfo_of_target h) = p
+  /\ UrlGen.request_path true base (pathinfo_of_target (h ++ qmark :: query)) = p
+  /\ (base = [] -> forall rp, UrlGen.request_path rp base (pathinfo_of_target h) = p).
+Proof. exact c18_request_line_regenerated. Qed.
+Print Assumptions C18_request_line_regenerated.
+
 (* Request line when the prefix was removed in front of Radicale (WSGI container with SCRIPT_NAME, or the
    documented proxy set-ups, which strip the location): the handler gets `p` -- unless the request comes from a
    reverse proxy, a prefix is in force and `p` itself lies below a top-level collection spelled like the whole
